@@ -18,7 +18,7 @@ from contracts.ctxvars import cm_unit, standard_units
 from pyvc.engine import ClassRef, ExcVal, PyRaise, Rec, Unsupported
 from pyvc.units import Setup, Unit
 
-KINDS = ["scalar", "Namespace", "dict", "list", "tuple", "OrderedDict"]
+KINDS = ["scalar", "Namespace", "dict", "list", "tuple", "OrderedDict", "empty-Namespace", "empty-dict", "empty-list"]
 
 
 class NS(Rec):
@@ -29,7 +29,7 @@ def mk_ns(store):
     def setitem(c, s_, a, k):
         s_.attrs["store"][a[0]] = a[1]
         c.mutated(s_)
-    r = NS("Namespace", attrs={"store": store}, methods={"__setitem__": setitem})
+    r = NS("Namespace", attrs={"store": store}, methods={"__setitem__": setitem, "__bool__": lambda c, s_, a, k: bool(s_.attrs["store"])})
     r.attrs["__dict__"] = Rec("dict-view", methods={"items": lambda c, s_, a, k: list(r.attrs["store"].items())})
     return r
 
@@ -42,6 +42,9 @@ def build(ctx, depth, path="v"):
         return [build(ctx, depth - 1, path + "[0]"), z3.Int(path + "[1]")]
     if kind == "tuple":
         return (build(ctx, depth - 1, path + "(0)"),)
+    if kind.startswith("empty-"):
+        # an empty branch is a branch: its copy must be a new object too (a key set in the clone must not appear in the original)
+        return {"empty-Namespace": mk_ns, "empty-dict": dict, "empty-list": list}[kind]({}) if kind != "empty-list" else []
     kids = {"a": build(ctx, depth - 1, path + ".a"), "__path__": z3.Int(path + ".__path__")}
     if kind == "dict":
         return dict(kids)
